@@ -35,7 +35,7 @@ PROPS = {
     },
     'C03': {
         'verus': [('coll', [H, 'drain_one'])],
-        'kani': [],
+        'kani': ['future_in_span_final_poll', 'stream_in_span_last_call', 'sink_in_span_close'],
         'assumptions': [LOCK, COLL_ENV, COLL_STD, REPORTER,
                         'NOT decided: the clause "every span that finished before it on any thread" needs a consistent cut across threads, which the sequential drain of receivers does not establish (DESIGN.md D8); proved per batch: what a commit releases is everything buffered so far plus this batch, in one report call, and nothing afterwards'],
     },
@@ -52,13 +52,15 @@ PROPS = {
         'assumptions': [RTRB, LOCK, COLL_ENV, COLL_STD],
     },
     'C17': {
-        'verus': [('coll', ['amend_local_span', 'mount_danglings', 'LocalSpansInner::to_span_records', 'postprocess_span_collection'])],
+        'verus': [('coll', ['amend_local_span', 'mount_danglings', 'LocalSpansInner::to_span_records', 'postprocess_span_collection']),
+                  ('lcoll', '*')],
         'kani': ['push_child_spans_direct'],
         'assumptions': [COLL_STD, CLOCK, 'identical "up to the clock anchor": proved per anchor value'],
     },
     'C18': {
         'verus': [('coll', ['amend_span', 'amend_local_span']),
-                  ('local', ['RawSpan::begin_with', 'RawSpan::end_with', 'SpanQueue::start_span', 'SpanQueue::finish_span', 'SpanQueue::add_event'])],
+                  ('local', ['RawSpan::begin_with', 'RawSpan::end_with', 'SpanQueue::start_span', 'SpanQueue::finish_span', 'SpanQueue::add_event']),
+                  ('lcoll', '*')],
         'kani': [],
         'assumptions': [CLOCK, NOW, 'NOT decided: "begin time lies inside the wall-clock window of the run" and interval nesting need a monotone clock (TSC + f64 conversion are trusted)'],
     },
@@ -127,7 +129,8 @@ PROPS = {
         'assumptions': [RTRB, TLS, LOCK],
     },
     'C09': {
-        'verus': [('spsc', ['Sender::force_send', 'Sender::send', 'bounded'])],
+        'verus': [('spsc', ['Sender::force_send', 'Sender::send', 'bounded']),
+                  ('local', ['SpanQueue::start_span', 'SpanQueue::add_event', 'SpanQueue::add_properties', 'SpanQueue::finish_span', 'SpanLine::start_span', 'LocalSpanStack::enter_span', 'LocalSpanStack::register_span_line'])],
         'kani': [],
         'assumptions': [RTRB, TLS],
     },
